@@ -157,6 +157,11 @@ pub struct RunCfg {
     /// one-shot ctrl-c task that exits).
     #[serde(default)]
     pub drop_sender: bool,
+    /// j >= 1: the interruptibility state handed to the call has already received
+    /// the signal and counted j item polls, as a state shared (`reborrow`) with an
+    /// earlier interrupted run has; 0: a fresh state.
+    #[serde(default)]
+    pub pre_interrupted: u8,
 }
 
 impl RunCfg {
@@ -198,6 +203,8 @@ pub struct Profile {
     pub aborts: bool,
     /// Generate runs driven inside tokio task polls (cooperative budget active).
     pub coop: bool,
+    /// One medium graph in `fan_den` is a fan (hub before / sink after all others).
+    pub fan_den: usize,
 }
 
 impl Profile {
@@ -217,6 +224,7 @@ impl Profile {
             root_path_cap: None,
             aborts: false,
             coop: false,
+            fan_den: 6,
         }
     }
     pub fn with_apis(mut self, shapes: &[Shape], w_with: usize, w_plain: usize) -> Self {
@@ -278,15 +286,19 @@ pub fn decode_spec(t: &mut Tape, p: &Profile) -> GraphSpec {
     } else {
         t.below(9)
     };
+    // medium graphs: one in `fan_den` is a fan (a hub before / a sink after all
+    // others, sparse access declarations): 9 or more functions become ready by one
+    // completion
+    let fan_medium = medium && t.chance(1, p.fan_den.max(1));
     // access declarations
-    let many_types = !wide && t.chance(1, 40);
+    let many_types = !wide && !fan_medium && t.chance(1, 40);
     let n_types = if many_types {
         // more data types than fit in a 64-bit mask / an inline small vector
         65 + t.below((crate::model::N_TYPES_MAX - 64) as usize) as u8
     } else {
         1 + t.below(N_TYPES as usize) as u8
     };
-    let den = if wide {
+    let den = if wide || fan_medium {
         [40usize, 12, 40, 80][t.below(4)]
     } else {
         [4usize, 3, 6, 10][t.below(4)]
@@ -325,6 +337,8 @@ pub fn decode_spec(t: &mut Tape, p: &Profile) -> GraphSpec {
     let mut edges: Vec<(usize, usize, Kind)> = Vec::new();
     if n >= 2 {
         let variant = if huge { 1 + t.below(3) } else if wide { t.below(5) } else { 0 };
+        let wide_shape = wide;
+        let (wide, variant) = if fan_medium { (true, 1 + t.below(2)) } else { (wide, variant) };
         if wide && (variant == 3 && huge || variant == 4) {
             // data-only fan-in / fan-out: every function reads type 0 except one
             // writer (last or first in insertion order); no user edges at all
@@ -353,7 +367,7 @@ pub fn decode_spec(t: &mut Tape, p: &Profile) -> GraphSpec {
                 }
             }
         } else {
-            let max_m = if wide {
+            let max_m = if wide_shape {
                 n / 4
             } else {
                 [n, n / 2, 2 * n, n * (n - 1) / 2][t.below(4)]
@@ -483,6 +497,10 @@ pub fn decode_cfg(t: &mut Tape, p: &Profile, n: usize, intr: bool) -> RunCfg {
     };
     let coop = p.coop && t.chance(1, 5);
     let drop_sender = t.chance(1, 4);
+    let mut pre_interrupted = if intr && p.interrupts && t.chance(1, 12) { 1 + t.below(3) as u8 } else { 0 };
+    if !api.with || matches!(strat, Strat::NonInterruptible) || api.shape == Shape::Stream {
+        pre_interrupted = 0;
+    }
     if !api.with {
         rev = false;
         strat = Strat::NonInterruptible;
@@ -504,5 +522,6 @@ pub fn decode_cfg(t: &mut Tape, p: &Profile, n: usize, intr: bool) -> RunCfg {
         instant: if api.shape.is_stream() { vec![] } else { instant },
         coop,
         drop_sender,
+        pre_interrupted,
     }
 }
